@@ -1010,6 +1010,19 @@ class PackageGenerator:
                            "    def __init__(self, width: int = 1, height: int = 2) -> None:\n        self.width = width\n        self.height = height\n")
             mp.all_classes += ["Holder"]
             mp.public_classes += ["Holder"]
+            if self.doc_style in ("NUMPYDOC", "GOOGLE"):
+                # an example block in which an expected-output line stands BETWEEN prompt lines
+                fq_ = f"{mp.qname}.scaled"
+                x1, x2 = self.tokens.new("X", fq_), self.tokens.new("X", fq_)
+                self.tokens.table[x1]["code"] = f"first = scaled({x1})"
+                self.tokens.table[x2]["code"] = f"second = scaled({x2})"
+                dl_ = self.desc("F", fq_).split("\n")
+                ex_ = [f">>> first = scaled({x1})", ">>> first", "2", f">>> second = scaled({x2})"]
+                if self.doc_style == "NUMPYDOC":
+                    body_ = [*dl_, "", "Examples", "--------", *ex_]
+                else:
+                    body_ = [*dl_, "", "Examples:", *["    " + e for e in ex_]]
+                mp.body.append("def scaled(v: int = 1) -> int:\n    \"\"\"" + "\n".join(("    " + ln if ln and i else ln) for i, ln in enumerate(body_)) + "\n    \"\"\"\n    ...\n")
 
         # everyday shapes that once aborted the tool (added last, no random draws): an enum with a method and a property, and
         # a constructor that fills a container attribute element by element and unpacks into starred / nested targets
@@ -1059,6 +1072,11 @@ class PackageGenerator:
         ms2 = self.new_module(top, "service_users")
         ms2.add_import(f"from {mo2.qname} import Config")
         ms2.body.append("def greet(cfg: Config) -> Config:\n    ...\n")
+
+        # a module with TWO leading underscores that the top-level package publishes by importing it
+        md_ = self.new_module(top, "__dunder_impl")
+        md_.body.append("def dunder_helper(n: int = 2) -> int:\n    ...\n")
+        self.inits[top].append(f"from {top} import __dunder_impl")
 
         # --- files
         files: dict[str, str] = {}
